@@ -1,7 +1,7 @@
 (** Issuance LTS: F3, the missing clause -- the caller's own steps. *)
 From Coq Require Import List Bool Arith Lia.
 From CM Require Import Issuance.Model Issuance.Proofs Issuance.Invariants Issuance.NoReissueTL Issuance.AgreeTL0 Issuance.Takeover
-  Issuance.ManageTL Issuance.ManageM.
+  Issuance.ManageTL Issuance.ManageMDefs.
 From CM Require Import Issuance.FreshTL.
 Import ListNotations.
 
